@@ -210,13 +210,15 @@ func (o *Orch) runShard(sh int) {
 		o.mu.Lock()
 		o.Counters[fmt.Sprintf("shard_wall_ms_max")] = maxI64(o.Counters["shard_wall_ms_max"], int64(time.Since(shardStart)/time.Millisecond))
 		o.mu.Unlock()
-		complete, lastCase, lastIdx := o.parseOut(out, sh)
+		complete, lastCase, lastIdx, abandoned := o.parseOut2(out, sh)
 		o.hashFiles = appendLocked(&o.mu, o.hashFiles, out+".hashes")
 		if complete {
 			return
 		}
 		stderr, _ := os.ReadFile(errf)
-		if timedOut {
+		if abandoned {
+			// the child judged a hang itself, reported it and gave up its process
+		} else if timedOut {
 			kind, sig := classifyDump(string(stderr))
 			if kind == "deadlock" {
 				o.AddViol(Viol{Key: "hang:deadlock:" + sig, Msg: "child hung; goroutine dump proves a deadlock (no goroutine runnable, sleeping or in I/O): " + sig,
@@ -265,10 +267,15 @@ func tail(s string, n int) string {
 var reCaseIdx = regexp.MustCompile(`^#(\d+) `)
 
 func (o *Orch) parseOut(path string, sh int) (complete bool, lastCase string, lastIdx int) {
+	c, l, i, _ := o.parseOut2(path, sh)
+	return c, l, i
+}
+
+func (o *Orch) parseOut2(path string, sh int) (complete bool, lastCase string, lastIdx int, abandoned bool) {
 	lastIdx = -1
 	f, err := os.Open(path)
 	if err != nil {
-		return false, "", -1
+		return false, "", -1, false
 	}
 	defer f.Close()
 	var lastStat *line
@@ -306,6 +313,8 @@ func (o *Orch) parseOut(path string, sh int) (complete bool, lastCase string, la
 				case "stat":
 					lastStat = &l2
 					*lastStat = l
+				case "abandon":
+					abandoned = true
 				case "done":
 					complete = true
 				}
